@@ -123,7 +123,7 @@ func jobsFor(id, tier string) []*Job {
 			for _, mt := range []int{1024, 6000} {
 				for _, dl := range []int{0, 1} {
 					r := reads
-					if ch == 1 && mt == 6000 && !thorough {
+					if ch == 1 && !thorough {
 						r = 3
 					}
 					cp = append(cp, []int{ch, mt, dl, r})
@@ -187,6 +187,11 @@ func jobsFor(id, tier string) []*Job {
 			}
 		}
 		add(split(wmk("pair", "zzverifw.H_C06_pair", pp))...)
+		var cp [][]int
+		for sh := 0; sh < 11; sh++ {
+			cp = append(cp, []int{sh, 11, 0})
+		}
+		add(split(wmk("constructs", "zzverifw.H_C06_constructs", cp))...)
 	case "C03":
 		var bp [][]int
 		for np := 0; np <= 3; np++ {
@@ -284,7 +289,7 @@ func jobsFor(id, tier string) []*Job {
 		add(split(wmk("ord", "zzverifw.H_C18_ord", ints(0, 5)))...)
 		add(split(wmk("trans", "zzverifw.H_C18_trans", ints(0, 5)))...)
 	case "C08":
-		o := wmk("order", "zzverifw.H_C08_order", ints(0, 25))
+		o := wmk("order", "zzverifw.H_C08_order", ints(0, 29))
 		o.MapOrder = 1
 		o.ReplayRepeat = 400
 		if thorough {
@@ -292,7 +297,7 @@ func jobsFor(id, tier string) []*Job {
 		}
 		add(split(o)...)
 	case "C07":
-		add(split(wmk("inject", "zzverifw.H_C07_inject", ints(0, 24)))...)
+		add(split(wmk("inject", "zzverifw.H_C07_inject", ints(0, 30)))...)
 	case "C15":
 		nmax := 3
 		if thorough {
@@ -324,6 +329,10 @@ func jobsFor(id, tier string) []*Job {
 		pw.IntMode = true
 		pw.SolverMs = 3000
 		add(split(pw)...)
+		ev := wmk("eval", "zzverifw.H_C10_eval", ints(0, 9))
+		ev.IntMode = true
+		ev.SolverMs = 3000
+		add(split(ev)...)
 		pool := mk("powpool", "zzverifw.H_C10_pow_pool", [][]int{{2}, {3}, {5}, {9}, {19}, {35}, {62}})
 		pool.IntMode = true
 		add(split(pool)...)
@@ -415,12 +424,12 @@ func boundsFor(id, tier string, jobs []*Job) map[string]interface{} {
 			b["names"] = "all names of length <= 8"
 		}
 	case "C16":
-		b["state"] = "buffered bytes 0..4096, unread input 0..8192, token length 1..1024 and 1..6000 (each symbolic)"
+		b["state"] = "buffered bytes 0..4096, unread input 0..8192, run of blanks before the token 0..3000, token length 1..1024 and 1..6000 (each symbolic)"
 		b["reader"] = "full reader and arbitrary short reads"
 		if tier == "thorough" {
 			b["reads_per_scan"] = "at most 6"
 		} else {
-			b["reads_per_scan"] = "at most 4 (3 for short reads with tokens up to 6000 bytes)"
+			b["reads_per_scan"] = "at most 4 (3 for short reads); paths needing more reads are cut by an assumption and counted"
 		}
 	case "C02":
 		b["infix"] = "all ordered pairs and all ordered triples of the 23 infix operators (operator tokens are solver choices)"
@@ -441,6 +450,7 @@ func boundsFor(id, tier string, jobs []*Job) map[string]interface{} {
 	case "C06":
 		b["pool"] = "10 live values: array built by a literal (spare capacity), str, object with nested array, map with array key, range, int, float, function, bear child, nested array"
 		b["single_step"] = "receiver: each pool value; property: EVERY name reachable from its prototype chain (solver choice); argument: none or one of 7 pool values (solver choice)"
+		b["constructs"] = "two of 44 call-site / literal constructs in sequence (keyword and positional unpacking, ** merging of objects and maps, bear / bro / patch, concatenation, interpolation, chains, digest, variadic parameters), all 44 x 44 ordered pairs"
 		b["two_steps"] = "first any Arr property on the literal array with argument [7] / 2 / function; then one of 8 array-building properties (+ * append prepend zip chain map rev) on the same receiver or on the first result; payloads concrete (quick) and symbolic ints in (1, 100) (thorough)"
 	case "C03":
 		b["binding"] = "0..3 positional and 0..2 keyword parameters (all 12 signatures) x 0..4 positional arguments (tail optionally as *[...]) x each of k1, k2 and the unknown zz absent / before the positionals / after them / through **{...} (solver choices)"
@@ -498,7 +508,7 @@ func boundsFor(id, tier string, jobs []*Job) map[string]interface{} {
 			b["pairs"] = "14 same-kind + 14 cross-kind pairs for the equality laws; 6 ordered kinds for order laws; triples of one ordered kind for transitivity"
 		}
 	case "C08":
-		b["templates"] = "26 constructs with side-effecting slots mark(i): array/object/map literals, range bounds, infix operands, positional + keyword arguments, receiver/chain argument/arguments/kwargs of a chained property call, interpolated string parts, duplicate kwargs/object keys/map keys, ** unpacking into objects/maps/calls, keys, printing, equality, kwarg defaults, object/map iteration, nested calls"
+		b["templates"] = "30 constructs (4 of them written over several source lines) with side-effecting slots mark(i): array/object/map literals, range bounds, infix operands, positional + keyword arguments, receiver/chain argument/arguments/kwargs of a chained property call, interpolated string parts, duplicate kwargs/object keys/map keys, ** unpacking into objects/maps/calls, keys, printing, equality, kwarg defaults, object/map iteration, nested calls"
 		b["map_sizes"] = "Go maps with 2..4 entries are permuted; larger maps iterate in insertion order"
 		if tier == "thorough" {
 			b["orders"] = "all n! permutations per range"
@@ -506,7 +516,7 @@ func boundsFor(id, tier string, jobs []*Job) map[string]interface{} {
 			b["orders"] = "n rotations + reversal per range"
 		}
 	case "C07":
-		b["templates"] = "25 constructs: array/object/map literals, range bounds, infix operands, call args + kwargs, receiver + args of a property call, if condition, embedded string parts, list/strict-list/reduce chains in literal-call and property-call form, statement list, callee expression, chain argument, function body, assignment, * unpacking, try step, thoughtful chain, lonely chain receiver, nested literals, range inside array"
+		b["templates"] = "31 constructs (incl. statements after yield / guarded yield / defer, method bodies, predicates of native loop helpers): array/object/map literals, range bounds, infix operands, call args + kwargs, receiver + args of a property call, if condition, embedded string parts, list/strict-list/reduce chains in literal-call and property-call form, statement list, callee expression, chain argument, function body, assignment, * unpacking, try step, thoughtful chain, lonely chain receiver, nested literals, range inside array"
 		b["failure_position"] = "K any value in [0, m] (0 = no failure), m <= 4 slots per template"
 		b["error_kinds"] = "ValueErr, TypeErr, ZeroDivisionErr (solver choice)"
 	case "C15":
@@ -521,7 +531,7 @@ func boundsFor(id, tier string, jobs []*Job) map[string]interface{} {
 		b["condition_values"] = "int: any int64; float: any 64-bit pattern (NaN, infinities, signed zeros); str/arr/obj/map: empty and one-element; nil; true; false; Int.bear.new(v) for any int64 v; bear child of an array; object with user-defined B returning either boolean; range; function"
 		b["constructs"] = "c.B, `x if c else y`, `x if c`, !c, c && x, c || x, guarded return / raise / yield / defer (11 templates per condition value)"
 	case "C10":
-		b["operands"] = "a, b: any int64 (full 64-bit range) for + - * // % <=> / and unary -"
+		b["operands"] = "a, b: any int64 (full 64-bit range) for + - * // % <=> / and unary -, called through the IntProps table and (except /) through parsed source `a op b` evaluated by Eval in the bootstrapped world (plus < == >=)"
 		if tier == "thorough" {
 			b["power"] = "exponent each of 0..63 (concrete), base: every int64 whose power fits in 64 bits"
 		} else {
@@ -577,7 +587,7 @@ func outsideFor(id string) []string {
 	case "C12":
 		return []string{"conditions whose B raises or returns a non-boolean", "nesting of conditional constructs inside each other", "containers longer than one element (B of arr/str/obj/map depends only on emptiness in the code read)", "match/case constructs"}
 	case "C10":
-		return []string{"exponents above 63 (only bases -1, 0, 1 and -2**63 fit)", "negative exponents and powers that do not fit (statement is silent)", "Float operands and the nil-as-identity convention", "Int descendants (bear/new) as operands", "parsing of the operator expression (C02) and dispatch through Eval (see jobs: operators are called through the IntProps table)"}
+		return []string{"exponents above 63 (only bases -1, 0, 1 and -2**63 fit)", "negative exponents and powers that do not fit (statement is silent)", "Float operands and the nil-as-identity convention", "Int descendants (bear/new) as operands", "parsing of the operator expression (C02)"}
 	case "C11":
 		return []string{"sequences longer than the bound", "bounds that are not ints or nil (floats, strs, descendants)", "Int#at bit slicing (same valRange/fixRange code, not asserted separately)", "parsing of the index expression"}
 	}
